@@ -1,8 +1,48 @@
 (** C05 — Charge/multiplicity completion is sound, input-respecting and deterministic.
-    Property theorems only; each is closed by [exact] of a lemma from Proofs/ChgMult.v.
-    Model: Model/ChgMult.v ([fill] = validate_and_fill_chgmult on integer data). *)
+    Property theorems only; each is closed by [exact] of a lemma from Proofs/ChgMult*.v.
+    Models: Model/ChgMult.v ([fill] = validate_and_fill_chgmult on integer data) and Model/ChgMultD.v
+    ([fillD D] = the same on rational charges / electron counts x/D, i.e. the float path; [fillD 1 = fill]).
+
+    CLAUSE MAP (statement of C05 in properties.jsonl, clause by clause)
+    1  "keeps every value the caller supplied"
+         C05_sound / C05_sound_rational (fields sp_keep_c, sp_keep_fc, sp_keep_m, sp_keep_fm, relative to
+         [adjust i]), C05_inputs_kept_verbatim ([adjust i = i] unless zero_ghost_fragments AND a ghost fragment is
+         present), C05_ghost_override_keeps_real_fragments (what [adjust] changes: totals cleared, ghost fragments
+         pinned to (0,1), every entry of a real fragment untouched).
+    2  "total charge = sum of fragment charges"                      C05_sound (sp_sum)
+    3  "positive integer multiplicity, enough electrons, right parity (each fragment and the whole)"
+         C05_sound (sp_pos, sp_tot, sp_frag); for fractional charges C05_sound_rational (parity is a constraint
+         only when the electron count z - c is integral: C05_parity_rule_rational).  Integrality of multiplicities is
+         by typing of the model (Z); float-typed integral multiplicities (2.0) and the refusal of the others are
+         only correspondence/oracle.
+    4  "all-ghost fragments neutral singlets"                        C05_sound (sp_ghost)
+    5  "high-spin coupling unless total and all fragment multiplicities were given"   C05_sound (sp_high)
+    6  "same input, same answer"      definitional for the model (a Gallina function); for the implementation only
+         correspondence: determinism / history / re-split / entry-point streams.
+    7  "a completed assignment fed back is returned unchanged"       C05_fixed_point, C05_fixed_point_rational
+    8  "any fully specified assignment that obeys these rules is accepted as is"
+         C05_accepts_valid_full_spec (boolean rules), C05_accepts_spec / C05_accepts_spec_rational (the same [Spec] that
+         soundness concludes: acceptance is the exact converse of soundness on complete assignments).
+    9  "with nothing specified: neutral, lowest multiplicity per fragment"
+         C05_default_neutral_lowspin (zero_ghost_fragments = False), C05_default_zgf_partial (zero_ghost_fragments =
+         True without ghost fragment); zero_ghost_fragments = True WITH a ghost fragment: only correspondence/oracle.
+    10 "when it cannot satisfy the rules it raises a validation error instead of returning a violating assignment"
+         C05_fails_closed (+ C05_sound), C05_error_iff_no_solution_in_searched_space (an error is raised exactly when a
+         non-positive multiplicity was supplied or NO assignment of the searched space -- described as a proposition,
+         [in_space]: total charge = the supplied one or the sum of the supplied fragment charges; an unspecified
+         fragment charge = 0 or the whole unallocated charge; total multiplicity supplied or between the all-singlet and
+         all-doublet high-spin sums; an unspecified fragment multiplicity 1, 2 or the missing-multiplicity range --
+         satisfies the rules), C05_error_iff_rational.  The unrestricted converse ("an error only if no assignment
+         at all satisfies the rules") is FALSE of the code as documented (it searches S1-S7 only):
+         C05_complete_unrestricted_refuted (H atom requested singlet: H+ singlet would obey every rule).
+    TIE  C05_generated_rules_are_the_model: _apply_default, _high_spin_sum, _mult_ok, _sufficient_electrons_for_mult,
+         _parity_ok are translated from chgmult.py on every run (Gen/ChgMultRules.v) and proved equal to the model's;
+         candidate construction S1-S7, the rule list and the search are hand-written, tied by exact differential runs.
+    +  which assignment is chosen: C05_first_match (the first element, in itertools.product order c, fc, m, fm, of
+         the candidate list that satisfies the specification; everything before it violates it).  *)
 From Coq Require Import ZArith List Bool.
-Require Import QV.Common.Outcome QV.Model.ChgMult QV.Proofs.ChgMult.
+Require Import QV.Common.Outcome QV.Model.ChgMult QV.Model.ChgMultD QV.Proofs.ChgMult QV.Proofs.ChgMultSpace
+  QV.Proofs.ChgMultD QV.Gen.ChgMultRules QV.Proofs.ChgMultGen.
 Import ListNotations.
 Open Scope Z_scope.
 
@@ -16,9 +56,18 @@ Open Scope Z_scope.
 Theorem C05_sound : forall i r, wf_in i -> fill i = Ok r -> Spec (adjust i) r.
 Proof. exact fill_sound. Qed.
 
-(** Without the ghost override the specification searched is the caller's input itself. *)
-Theorem C05_inputs_kept_verbatim : forall i, zgf i = false -> adjust i = i.
-Proof. intros i H. unfold adjust. rewrite H. reflexivity. Qed.
+(** Without the ghost override (flag off, or no ghost fragment) the specification searched is the caller's input. *)
+Theorem C05_inputs_kept_verbatim : forall i, zgf i = false \/ has_ghost i = false -> adjust i = i.
+Proof. exact adjust_id. Qed.
+
+(** What the ghost override changes: the totals are cleared, ghost fragments are pinned to (0, 1), and every
+    entry belonging to a real fragment is left exactly as supplied. *)
+Theorem C05_ghost_override_keeps_real_fragments : forall i, wf_in i -> zgf i = true -> has_ghost i = true ->
+  felez (adjust i) = felez i /\ ic (adjust i) = None /\ im (adjust i) = None /\
+  forall k g, nth_error (ghosts i) k = Some g ->
+    nth_error (ifc (adjust i)) k = (if g then Some (Some 0) else nth_error (ifc i) k) /\
+    nth_error (ifm (adjust i)) k = (if g then Some (Some 1) else nth_error (ifm i) k).
+Proof. exact adjust_override. Qed.
 
 (** A completed assignment fed back is returned unchanged. *)
 Theorem C05_fixed_point : forall i r, wf_in i -> fill i = Ok r -> fill (respec i r) = Ok r.
@@ -28,14 +77,85 @@ Proof. exact fill_fixed_point. Qed.
 Theorem C05_accepts_valid_full_spec : forall i r, rules_full i r = true -> fill (respec i r) = Ok r.
 Proof. exact fill_accepts_full. Qed.
 
+(** ... stated against the specification that soundness concludes (exact converse of C05_sound on complete input). *)
+Theorem C05_accepts_spec : forall i r, Spec (adjust (respec i r)) r -> fill (respec i r) = Ok r.
+Proof. exact fill_accepts_spec. Qed.
+
 (** With nothing specified: neutral, lowest multiplicity per fragment, high-spin total. *)
 Theorem C05_default_neutral_lowspin :
   forall fe, Forall (fun f => 0 <= zsum f) fe -> fill (blank fe false) = Ok (target fe).
 Proof. exact fill_default. Qed.
 
+Theorem C05_default_zgf_partial :
+  forall fe, Forall (fun f => 0 <= zsum f) fe -> has_ghost (blank fe true) = false -> fill (blank fe true) = Ok (target fe).
+Proof. exact fill_default_zgf_noghost. Qed.
+
 (** It never returns anything but an assignment or a validation error. *)
 Theorem C05_fails_closed : forall i, fill i = Err Validation \/ exists r, fill i = Ok r.
 Proof. exact fill_fails_closed. Qed.
+
+(** Completeness of the search: a validation error is raised exactly when a non-positive multiplicity was supplied
+    or no assignment of the searched space satisfies the rules. *)
+Theorem C05_error_iff_no_solution_in_searched_space : forall i, wf_in i ->
+  (fill i = Err Validation <-> bad_supplied i \/ forall r, in_space (adjust i) r -> ~ Spec (adjust i) r).
+Proof. exact fill_err_iff. Qed.
+
+(** [in_space] is exactly membership in the candidate product the code iterates over. *)
+Theorem C05_searched_space : forall i r, In r (candidates i) <-> in_space i r.
+Proof. exact in_space_candidates. Qed.
+
+(** The unrestricted reading of completeness is false (documented behaviour: only S1-S7 are searched). *)
+Theorem C05_complete_unrestricted_refuted :
+  exists i r, wf_in i /\ fill i = Err Validation /\ ~ bad_supplied i /\ Spec (adjust i) r.
+Proof. exact fill_complete_unrestricted_refuted. Qed.
+
+(** Which assignment is returned: the first one, in the order of the candidate product, that satisfies the
+    specification. *)
+Theorem C05_first_match : forall i r, wf_in i -> fill i = Ok r ->
+  exists pre post, candidates (adjust i) = pre ++ r :: post
+    /\ Forall (fun x => ~ Spec (adjust i) x) pre /\ Spec (adjust i) r.
+Proof. exact fill_first_match. Qed.
+
+(** Fractional charges (the float path).  [fillD D] works on charges and electron counts x/D. *)
+Theorem C05_integer_case_of_rational : forall i, fillD 1 i = fill i.
+Proof. exact fillD_1. Qed.
+
+Theorem C05_sound_rational : forall D i r, 0 < D -> wf_in i -> fillD D i = Ok r -> SpecD D (adjust i) r.
+Proof. exact fillD_sound. Qed.
+
+(** The parity rule as evaluated by the code, `(m % 2) != ((z - c) % 2)`, constrains m exactly when the electron
+    count (z - c)/D is an integer q, and then says that m and q have different parity. *)
+Theorem C05_parity_rule_rational : forall D z c m, 0 < D ->
+  (parity_okD D z c m = true <-> forall q, z - c = q * D -> m mod 2 <> q mod 2).
+Proof. exact parity_okD_spec. Qed.
+
+Theorem C05_fixed_point_rational : forall D i r, 0 < D -> wf_in i -> fillD D i = Ok r -> fillD D (respec i r) = Ok r.
+Proof. exact fillD_fixed_point. Qed.
+
+Theorem C05_accepts_spec_rational : forall D i r, 0 < D -> SpecD D (adjust (respec i r)) r -> fillD D (respec i r) = Ok r.
+Proof. exact fillD_accepts_spec. Qed.
+
+Theorem C05_error_iff_rational : forall D i, 0 < D -> wf_in i ->
+  (fillD D i = Err Validation <-> bad_supplied i \/ forall r, in_space (adjust i) r -> ~ SpecD D (adjust i) r).
+Proof. exact fillD_err_iff. Qed.
+
+Theorem C05_first_match_rational : forall D i r, 0 < D -> wf_in i -> fillD D i = Ok r ->
+  exists pre post, candidates (adjust i) = pre ++ r :: post
+    /\ Forall (fun x => ~ SpecD D (adjust i) x) pre /\ SpecD D (adjust i) r.
+Proof. exact fillD_first_match. Qed.
+
+Theorem C05_fails_closed_rational : forall D i, fillD D i = Err Validation \/ exists r, fillD D i = Ok r.
+Proof. exact fillD_fails_closed. Qed.
+
+(** Tie: the helper functions translated from chgmult.py on every run (_apply_default, _high_spin_sum, _mult_ok,
+    _sufficient_electrons_for_mult, _parity_ok; integer and rational reading) are the model's, for all arguments. *)
+Theorem C05_generated_rules_are_the_model :
+  (forall l d, gen_apply_default l d = apply_default l d) /\ (forall l, gen_hss l = hss l) /\
+  (forall m, gen_mult_ok m = (1 <=? m)) /\
+  (forall z c m, gen_sufficient z c m = sufficient z c m) /\ (forall z c m, gen_parity_ok z c m = parity_ok z c m) /\
+  (forall D z c m, gen_sufficientD D z c m = sufficientD D z c m) /\
+  (forall D z c m, gen_parity_okD D z c m = parity_okD D z c m).
+Proof. exact gen_rules_tie. Qed.
 
 (** Non-vacuity: the docstring case N/Ne/N, total charge 1, quartet, middle fragment triplet. *)
 Definition ex_in : cm_in :=
@@ -47,10 +167,38 @@ Proof. repeat split; vm_compute; reflexivity. Qed.
 Example C05_ex_default : fill (blank [[1]; [0; 0]; [8; 1; 1]] false) = Ok (target [[1]; [0; 0]; [8; 1; 1]])
                          /\ target [[1]; [0; 0]; [8; 1; 1]] = {| oc := 0; ofc := [0; 0; 0]; om := 2; ofm := [2; 1; 1] |}.
 Proof. split; vm_compute; reflexivity. Qed.
+(** the ghost override is exercised: Gh/He/Gh with total charge 1 and zero_ghost_fragments *)
+Example C05_ex_override :
+  fill {| felez := [[0]; [2]; [0]]; ic := Some 1; ifc := [None; None; None]; im := None; ifm := [None; None; None]; zgf := true |}
+  = Ok {| oc := 0; ofc := [0; 0; 0]; om := 1; ofm := [1; 1; 1] |}.
+Proof. vm_compute; reflexivity. Qed.
+(** a validation error with every supplied multiplicity positive (so the second disjunct of the completeness theorem holds) *)
+Example C05_ex_error : fill cx_in = Err Validation /\ ~ bad_supplied cx_in.
+Proof. destruct fill_complete_unrestricted_refuted_facts as [A B]. split; assumption. Qed.
+(** a half-integral charge: He(+1/2) may be a singlet (no parity constraint), D = 2 *)
+Example C05_ex_half : fillD 2 {| felez := [[4]]; ic := None; ifc := [Some 1]; im := None; ifm := [None]; zgf := false |}
+                      = Ok {| oc := 1; ofc := [1]; om := 1; ofm := [1] |}.
+Proof. exact fillD_half. Qed.
 
 Print Assumptions C05_sound.
 Print Assumptions C05_inputs_kept_verbatim.
+Print Assumptions C05_ghost_override_keeps_real_fragments.
 Print Assumptions C05_fixed_point.
 Print Assumptions C05_accepts_valid_full_spec.
+Print Assumptions C05_accepts_spec.
 Print Assumptions C05_default_neutral_lowspin.
+Print Assumptions C05_default_zgf_partial.
 Print Assumptions C05_fails_closed.
+Print Assumptions C05_error_iff_no_solution_in_searched_space.
+Print Assumptions C05_searched_space.
+Print Assumptions C05_complete_unrestricted_refuted.
+Print Assumptions C05_first_match.
+Print Assumptions C05_integer_case_of_rational.
+Print Assumptions C05_sound_rational.
+Print Assumptions C05_parity_rule_rational.
+Print Assumptions C05_fixed_point_rational.
+Print Assumptions C05_accepts_spec_rational.
+Print Assumptions C05_error_iff_rational.
+Print Assumptions C05_first_match_rational.
+Print Assumptions C05_fails_closed_rational.
+Print Assumptions C05_generated_rules_are_the_model.
